@@ -54,9 +54,12 @@ def formula_cases(rng, n):
         ns = int(rng.integers(1, 4))
         ep = bool(rng.random() < 0.75)
         w = int(rng.integers(1, 4))
-        order, mode = sg.gen_layout(rng, w + 1, max_eps=4 if ep else 1, extra=5)
+        # one episode in three (when there are several) has no sample beyond its initial conditions: nothing of it is scored
+        order, mode = sg.gen_layout(rng, w + 1, short_prob=(0.3 if ep else 0.0), max_eps=4 if ep else 1, extra=5)
         if not ep:
             order = [0] * len(order)
+        if ep and all(order.count(l) <= w for l in set(order)):
+            order = order + [max(order) + 1] * (w + 2)        # at least one episode is scored
         Xe = sg.gen_data(rng, order, ns, 0, ep)
         Xp = Xe.copy()
         off = 1 if ep else 0
@@ -185,6 +188,60 @@ def scorer_cases(rng, n, ids):
     return ev, bad, kn
 
 
+def diverged_scorer_cases():
+    """a model whose multi-step prediction leaves the floating-point range (unstable Koopman matrix, no lifting or only a delay,
+    long horizon): the scorers return the numeric error_score, the default score is NaN, error_score='raise' raises; a
+    short horizon scores normally"""
+    bad = []
+    n = 0
+    rng = np.random.default_rng(3)
+    for delays in (0, 1):
+        ns = 2
+        T = 400
+        X = np.hstack((np.zeros((T, 1)), rng.uniform(-1, 1, size=(T, ns))))
+        lfs = [('d', pykoop.DelayLiftingFn(delays, delays))] if delays else None
+        p = ns * (delays + 1)
+        kp = pykoop.KoopmanPipeline(lifting_functions=lfs, regressor=pykoop.DataRegressor(coef=10.0 * np.eye(p)))
+        kp.fit(X, n_inputs=0, episode_feature=True)
+        for relift in (True, False):
+            with warnings.catch_warnings():
+                warnings.simplefilter('ignore')
+                n += 1
+                try:
+                    got = pykoop.KoopmanPipeline.make_scorer(error_score=-1e6, relift_state=relift)(kp, X, None)
+                    ok = (got == -1e6)
+                    info = dict(returned=float(got))
+                except Exception as e:  # noqa
+                    ok, info = False, dict(exception=f'{type(e).__name__}: {e}'[:200])
+                if not ok:
+                    bad.append(dict(what='a diverged multi-step prediction does not yield the numeric error_score from the scorer',
+                                    relift_state=relift, n_delays=delays, **info))
+                    continue
+                n += 1
+                try:
+                    pykoop.KoopmanPipeline.make_scorer(error_score='raise', relift_state=relift)(kp, X, None)
+                    bad.append(dict(what="a diverged multi-step prediction does not raise with error_score='raise'", relift_state=relift,
+                                    n_delays=delays))
+                except ValueError:
+                    pass
+                except Exception as e:  # noqa
+                    bad.append(dict(what=f"error_score='raise' raised {type(e).__name__} instead of ValueError: {e}"[:300],
+                                    relift_state=relift, n_delays=delays))
+        n += 1
+        with warnings.catch_warnings():
+            warnings.simplefilter('ignore')
+            try:
+                s_ = kp.score(X)
+                if not np.isnan(s_):
+                    bad.append(dict(what='KoopmanPipeline.score of a diverged prediction is not NaN (the default error_score)', score=float(s_)))
+                s2_ = kp.score(X[:6 + delays])
+                if not np.isfinite(s2_):
+                    bad.append(dict(what='a short horizon of the same model does not score normally', score=float(s2_)))
+            except Exception as e:  # noqa
+                bad.append(dict(what=f'KoopmanPipeline.score raised {type(e).__name__}: {e} on a diverging model'[:300], n_delays=delays))
+    return n, bad
+
+
 def run(res, tier):
     rng = np.random.default_rng(common.seed())
     proved = driver.proof_step(res, PID)
@@ -192,6 +249,8 @@ def run(res, tier):
     n_f, n_s = (120, 12) if tier == 'quick' else (1500, 150)
     batch, failed, errors, bad, samples, dist = formula_cases(rng, n_f)
     ev, bad2, kn = scorer_cases(rng, n_s, ids)
+    n_d, bad_d = diverged_scorer_cases()
+    ev += n_d; bad2 = bad2 + bad_d
     res.coverage.update(
         evaluations=len(batch.meta) + ev, distinct_nontrivial=len(batch.meta) + ev,
         rule=('Formula: integer trajectories on random episode layouts, min_samples 1..3, n_steps None/1..6, discount in '
